@@ -458,6 +458,11 @@ impl BlockFilterRpc for BlockFilterRpcImpl {
         let cells = iter
             .take_while(|(key, _value)| key.starts_with(&prefix))
             .filter_map(|(key, value)| {
+                // A search script which is longer than the stored script matches into the
+                // block number of the key.
+                if key.len() < prefix.len() + CELL_KEY_SUFFIX_LEN {
+                    return None;
+                }
                 let tx_hash = packed::Byte32::from_slice(&value).expect("stored tx hash");
                 let output_index = u32::from_be_bytes(
                     key[key.len() - 4..]
@@ -633,6 +638,11 @@ impl BlockFilterRpc for BlockFilterRpcImpl {
             let mut last_key = Vec::new();
 
             for (key, value) in iter.take_while(|(key, _value)| key.starts_with(&prefix)) {
+                // A search script which is longer than the stored script matches into the
+                // block number of the key.
+                if key.len() < prefix.len() + TX_KEY_SUFFIX_LEN {
+                    continue;
+                }
                 let tx_hash = packed::Byte32::from_slice(&value).expect("stored tx hash");
                 if tx_with_cells.len() == limit
                     && tx_with_cells.last_mut().unwrap().transaction.hash != tx_hash.unpack()
@@ -747,6 +757,9 @@ impl BlockFilterRpc for BlockFilterRpcImpl {
             let txs = iter
                 .take_while(|(key, _value)| key.starts_with(&prefix))
                 .filter_map(|(key, value)| {
+                    if key.len() < prefix.len() + TX_KEY_SUFFIX_LEN {
+                        return None;
+                    }
                     let tx_hash = packed::Byte32::from_slice(&value).expect("stored tx hash");
                     let tx = packed::Transaction::from_slice(
                         &snapshot
@@ -869,6 +882,11 @@ impl BlockFilterRpc for BlockFilterRpcImpl {
         let capacity: u64 = iter
             .take_while(|(key, _value)| key.starts_with(&prefix))
             .filter_map(|(key, value)| {
+                // A search script which is longer than the stored script matches into the
+                // block number of the key.
+                if key.len() < prefix.len() + CELL_KEY_SUFFIX_LEN {
+                    return None;
+                }
                 let tx_hash = packed::Byte32::from_slice(&value).expect("stored tx hash");
                 let output_index = u32::from_be_bytes(
                     key[key.len() - 4..]
@@ -1075,6 +1093,9 @@ impl NetRpc for NetRpcImpl {
 }
 
 const MAX_PREFIX_SEARCH_SIZE: usize = u16::max_value() as usize;
+// The part of a key after the script: block number, tx index, output index (and io type).
+const CELL_KEY_SUFFIX_LEN: usize = 16;
+const TX_KEY_SUFFIX_LEN: usize = 17;
 
 // a helper fn to build query options from search paramters, returns prefix, from_key, direction and skip offset
 fn build_query_options(
